@@ -65,6 +65,23 @@ fn main() {
     for line in stdin.lock().lines() {
         let line = line.unwrap();
         let p: Vec<&str> = line.split_whitespace().collect();
+        if p.len() >= 1 && p[0] == "td_parse" {
+            // td_parse <hex bytes of the UTF-8 string>  ->  OK <months> <total ns> | ERR | PANIC <msg>
+            let hex = if p.len() > 1 { p[1] } else { "" };
+            let bytes: Vec<u8> = (0..hex.len() / 2).map(|i| u8::from_str_radix(&hex[2 * i..2 * i + 2], 16).unwrap()).collect();
+            let txt = String::from_utf8(bytes).unwrap();
+            let r = std::panic::catch_unwind(|| tevec::prelude::TimeDelta::parse(&txt));
+            match r {
+                Ok(Ok(td)) => writeln!(out, "OK {} {}", td.months, td.inner.num_nanoseconds().map(|v| v.to_string()).unwrap_or("overflow".into())).unwrap(),
+                Ok(Err(_)) => writeln!(out, "ERR").unwrap(),
+                Err(e) => {
+                    let msg = e.downcast_ref::<String>().cloned().or_else(|| e.downcast_ref::<&str>().map(|s| s.to_string())).unwrap_or_default();
+                    writeln!(out, "PANIC {}", msg.replace('\n', " ")).unwrap()
+                },
+            }
+            out.flush().unwrap();
+            continue;
+        }
         if p.len() < 4 {
             continue;
         }
